@@ -180,6 +180,10 @@ def build(version, rot=0):
     for f in ("DW_FORM_ref4", "DW_FORM_ref1", "DW_FORM_ref2", "DW_FORM_ref8", "DW_FORM_ref_udata", "DW_FORM_ref_addr"):
         B.add("DW_TAG_variable", Attr("DW_AT_type", f, t["signed"]), "N")
         B.add("DW_TAG_variable", Attr("DW_AT_sibling" if False else "DW_AT_containing_type", f, t["unsigned"]), "N")
+    # every attribute that holds a location description, in the form of its DWARF version
+    for k, at in enumerate(("DW_AT_location", "DW_AT_data_member_location", "DW_AT_vtable_elem_location", "DW_AT_frame_base", "DW_AT_return_addr", "DW_AT_static_link",
+                            "DW_AT_use_location", "DW_AT_segment", "DW_AT_data_location")):
+        B.add("DW_TAG_member", Attr(at, "DW_FORM_exprloc" if version >= 4 else "DW_FORM_block1", [("DW_OP_plus_uconst", 8 + k)]), "N")
     if version >= 4:
         B.add("DW_TAG_variable", Attr("DW_AT_location", "DW_FORM_exprloc", [("DW_OP_addr", 0x1000)]), "N")
         B.add("DW_TAG_variable", Attr("DW_AT_frame_base", "DW_FORM_exprloc", [("DW_OP_call_frame_cfa",)]), "N")
